@@ -170,3 +170,19 @@ def ignored_init_params(prog, module_prefixes):
                 continue
             out.append((f, p))
     return out
+
+
+def inline_base_entry_points(ctx, prog):
+    """DistinguisherMixin.update / compute with their private module-level / same-class helpers inlined in place (once per program
+    instance): the rules that follow update() read one function whatever helper structure the maintainers gave it"""
+    if getattr(prog, '_base_entry_points_inlined', False):
+        return
+    prog._base_entry_points_inlined = True
+    from . import inline as _inl
+    dm = prog.need_class(*DIST_BASE)
+    for m in ('update', 'compute'):
+        f = dm.methods.get(m)
+        if f is not None:
+            h = _inl.inline_in_place(prog, f, skip={'_check', '_update', '_initialize', '_compute', '_accumulate', '_initialize_accumulators'})
+            if h:
+                ctx.note(f'{f.key}: helpers inlined before analysis: {h}')
